@@ -108,7 +108,8 @@ impl<P: Protocol> Net<P> {
     }
 
     fn salt(&self, i: usize) -> [u8; 4] {
-        let v = 16 * (i as u8 + 1);
+        // ascending with the node index (up to 29 nodes): 16, 32, .. 240, 241, 242, ..
+        let v: u8 = if i < 15 { 16 * (i as u8 + 1) } else { (240 + (i - 14)).min(254) as u8 };
         // the first byte fixes the order of two nodes' salted hashes; the rest differs from call to call, as two handshake
         // objects of one node have different salts in reality
         let c = self.salt_counter.get();
